@@ -158,8 +158,26 @@ let proxy_run (s : string) : string =
   let (_, tr) = run model_compile ps_init evs in
   String.concat "|" (List.map (fun (outs, r) -> String.concat "+" (List.map show_out outs @ [ show_reply r ])) tr)
 
+(* generate <force><keep> <skip,..|-> <path:cid:mtime;...> <cid>ocid,...> : the CLI model on abstract contents *)
+let generate_run (fk : string) (skip : string) (tree : string) (table : string) : string =
+  let fl = { fl_force = fk.[0] = '1'; fl_keep = fk.[1] = '1';
+             fl_skip = (if skip = "-" then [] else List.map bytes_of_hex (String.split_on_char ',' skip)) } in
+  let fs = List.map (fun e -> match String.split_on_char ':' e with
+      | [ p; c; m ] -> (bytes_of_hex p, { f_content = bytes_of_hex c; f_mtime = z_of_int (int_of_string m) })
+      | _ -> failwith "tree") (if tree = "-" then [] else String.split_on_char ';' tree) in
+  let tbl = List.map (fun e -> match String.split_on_char '>' e with
+      | [ c; o ] -> (c, o) | _ -> failwith "table") (if table = "-" then [] else String.split_on_char ',' table) in
+  let compile (c : n list) : n list option =
+    match List.assoc_opt (hex_of_bytes c) tbl with
+    | Some "-" | None -> None
+    | Some o -> Some (bytes_of_hex o) in
+  let res = goht_generate compile (z_of_int (-1)) fl fs in
+  let rows = List.map (fun (p, f) -> Printf.sprintf "%s:%s:%d" (hex_of_bytes p) (hex_of_bytes f.f_content) (int_of_z f.f_mtime)) res in
+  String.concat ";" (List.sort compare rows)
+
 let handle (line : string) : string =
   match String.split_on_char ' ' line with
+  | [ "generate"; fk; skip; tree; table ] -> generate_run fk skip tree table
   | [ "proxy"; h ] -> proxy_run h
   | "addimport" :: pkg :: lines ->
     let (i, text) = proxy_add_import (List.map bytes_of_hex lines) (bytes_of_hex pkg) in
